@@ -376,3 +376,11 @@ T('C04', 'fix-q-converted', [(INF, "            if Q is None:\n                Q
 K('C09', 'setup-reuses-model-total-lost', [(INF, "        model = GraphicalModel(self.domain,cliques,total,elimination_order=self.elim_order)\n", "        if self.warm_start and hasattr(self, 'model') and list(self.model.cliques) == cliques:\n            model = self.model\n        else:\n            model = GraphicalModel(self.domain,cliques,total,elimination_order=self.elim_order)\n")], 'pass-through')
 K('C09', 'pi-preallocated-arrays', [(PI, "    variances = np.array([])\n    estimates = np.array([])\n    for Q, y, noise, proj in measurements:", "    variances = np.zeros(len(measurements))\n    estimates = np.zeros(len(measurements))\n    k = 0\n    for Q, y, noise, proj in measurements:"),
                                    (PI, "            variances = np.append(variances, noise**2 * np.dot(v, v))\n            estimates = np.append(estimates, np.dot(v, y))\n    if estimates.size == 0:", "            variances[k] = noise**2 * np.dot(v, v)\n            estimates[k] = np.dot(v, y)\n            k += 1\n    if k == 0:")], 'sibling-agreement')
+K('C14', 'condition-take-loop-stale-axes', [(F, "        slices = [evidence[a] if a in evidence else slice(None) for a in self.domain]\n        newdom = self.domain.marginalize(evidence.keys())\n        values = self.values[tuple(slices)]",
+                                               "        newdom = self.domain.marginalize(evidence.keys())\n        values = self.values\n        for a in evidence:\n            if a in self.domain:\n                values = values.take(evidence[a], axis=self.domain.axes([a])[0])")], 'axis-by-name')
+K('C14', 'factor-dot-positional', [(F, "    def datavector(self, flatten=True):\n        \"\"\" Materialize the data vector \"\"\"", "    def dot(self, other):\n        return np.dot(self.datavector(), other.datavector())\n\n    def datavector(self, flatten=True):\n        \"\"\" Materialize the data vector \"\"\"")], 'elementwise')
+K('C01', 'tree-forest-for-disjoint', [(JT, "            wgt = len(set(c1) & set(c2))\n            complete.add_edge(c1, c2, weight=-wgt)", "            wgt = len(set(c1) & set(c2))\n            if wgt > 0:\n                complete.add_edge(c1, c2, weight=-wgt)")], 'tree-connected')
+K('C10', 'rda-gbar-aliases-zeros', [(INF, "        gbar = CliqueVector({ cl : self.Factor.zeros(domain.project(cl)) for cl in cliques })\n        zeros = CliqueVector({ cl : self.Factor.zeros(domain.project(cl)) for cl in cliques })\n",
+                                         "        gbar = zeros = CliqueVector({ cl : self.Factor.zeros(domain.project(cl)) for cl in cliques })\n")], 'mask-not-scaled')
+K('C15', 'size-numpy-prod', [(DOM, "            return reduce(lambda x,y: x*y, self.shape, 1)", "            return int(np.prod(self.shape))"), (DOM, "from functools import reduce", "from functools import reduce\nimport numpy as np")], 'exact-size')
+K('C15', 'datavector-bins-from-shape', [(DS, "        ans = np.histogramdd(self.df.values, bins, weights=self.weights)[0]", "        ans = np.histogramdd(self.df.values, self.domain.shape, weights=self.weights)[0]")], 'histogram')
